@@ -87,6 +87,14 @@ namespace QXmpp::Private {
 FastTokenManager::FastTokenManager(QXmppConfiguration &config) : config(config) { }
 }
 
+// element copy / destroy of the QMap<unsigned,QXmppPacket> model (c10_models.c) = the real QXmppPacket copy constructor / destructor
+extern "C" {
+void vp_c10_pkt_copy(void *dst, const void *src) { new (dst) QXmppPacket(*static_cast<const QXmppPacket *>(src)); }
+void vp_c10_pkt_destroy(void *p) { static_cast<QXmppPacket *>(p)->~QXmppPacket(); }
+unsigned vp_c10_map_n(const void *map);
+}
+static inline void vpC10KeepHooks() { if (vp_c10_false()) { vp_c10_pkt_copy(nullptr, nullptr); vp_c10_pkt_destroy(nullptr); } }   // never true; keeps the hooks in the translated program
+
 // typed but unconstructed storage (a union member is not constructed implicitly): keeps pointers stored by the real code as pointers
 template<typename T> union VpTyped { T v; VpTyped() { } ~VpTyped() { } T *p() { return &v; } T *operator->() { return &v; } };
 // n arbitrary UTF-16 units, length known to symbolic execution
@@ -105,6 +113,7 @@ enum {
     CFG_IDX_SHIFT = 12,
     CFG_EV_SHIFT = 14,      // event-specific case bits (5 bits)
     CFG_NOREQ = 1 << 19,    // pre-state without outstanding requests
+    CFG_ONEREQ = 1 << 20,   // pre-state with exactly one outstanding request (slot 0)
 };
 static inline unsigned cfgListener() { return (vp_c10_cfg() >> CFG_L_SHIFT) & 7; }
 static inline unsigned cfgNAddr() { return (vp_c10_cfg() >> CFG_N_SHIFT) & 3; }
@@ -139,6 +148,7 @@ struct Fx {
     Fx()
     {
         q = client.p(); d = priv.p();
+        vpC10KeepHooks();
         vp_qobject_construct(q, nullptr);
         new (const_cast<std::unique_ptr<QXmppOutgoingClientPrivate> *>(&q->d)) std::unique_ptr<QXmppOutgoingClientPrivate>(d);
         calibrate();
@@ -254,7 +264,7 @@ struct Fx {
             key[i] = vpFixString(i == 0 ? 1 : 2);      // distinct by construction (different lengths) for the two that may exist
             jid[i] = vpSymStringNonEmpty(2);
             new (map->slot(i)) VpIqMap::value_type(key[i], IqState { {}, jid[i] });
-            used[i] = (i < C10_NREQ && !(vp_c10_cfg() & CFG_NOREQ)) ? vp_bool() : false;
+            used[i] = (vp_c10_cfg() & CFG_ONEREQ) ? i == 0 : (i < C10_NREQ && !(vp_c10_cfg() & CFG_NOREQ)) ? vp_bool() : false;
             map->t->s[i]->used = used[i];
             task[i].emplace(map->slot(i)->second.interface.task());
         }
